@@ -40,6 +40,7 @@ class Units:
         self.notes = []
         self._bind_params()
         self._find_ascii_guards()
+        self._find_newline_return_guards()
         for _ in range(8):
             before = dict(self.env)
             self._pass(body["tree"])
@@ -129,6 +130,26 @@ class Units:
                             if T.local_of(a) == ch_id and isinstance(T.lit_value(b), str) and len(T.lit_value(b)) == 1 and ord(T.lit_value(b)) < 128:
                                 self.ascii_guarded.add(id(n))
 
+    def _find_newline_return_guards(self):
+        """`p + 1` is a boundary after `if bytes.get(p) != Some(&b'\\n') { return .. }` (or bytes[p] != b'\\n')."""
+        for blk in T.nodes(self.body["tree"], "block"):
+            guarded = set()
+            for st in blk["stmts"]:
+                e = T.peel(st["e"]) if st["k"] == "expr" else None
+                if e is not None and e.get("k") == "if" and e.get("els") is None and any(x.get("k") == "ret" for x in T.nodes(e["then"])):
+                    pos = _newline_test_pos(e["cond"])
+                    if pos is not None and pos[1] is False:
+                        guarded.add(pos[0])
+                        continue
+                if guarded:
+                    for n in T.nodes(st):
+                        if n.get("k") == "binary" and n["op"] == "+" and T.lit_value(n["r"]) == 1 and T.render(T.peel_ref(n["l"])) in guarded:
+                            self.ascii_guarded.add(id(n))
+            if guarded and blk.get("tail") is not None:
+                for n in T.nodes(blk["tail"]):
+                    if n.get("k") == "binary" and n["op"] == "+" and T.lit_value(n["r"]) == 1 and T.render(T.peel_ref(n["l"])) in guarded:
+                        self.ascii_guarded.add(id(n))
+
     def _pat_ascii(self, pat):
         if pat["p"] == "lit" and pat.get("lk") == "char":
             return ord(pat["v"][0]) < 128
@@ -197,6 +218,10 @@ class Units:
             c = T.callee(n)
             cn = T.cname(n) or ""
             if cn.endswith("cmp::min") or cn.endswith("cmp::max"):
+                if cn.endswith("cmp::min"):
+                    for a_, x_ in ((n["args"][0], n["args"][1]), (n["args"][1], n["args"][0])):
+                        if self._clamp_bb(a_, x_):
+                            return BB
                 a, b = self.unit(n["args"][0]), self.unit(n["args"][1])
                 return join(a, b)
             ann = self._fn_ann(c) if c else None
@@ -326,8 +351,21 @@ class Units:
                 if tu is not None and n["pat"]["p"] == "tuple":
                     self.bind_pat(n["pat"], tu)
                 else:
+                    self._is_scanner_result(n["init"])       # marks closure parameters sitting on a line break first
                     self.bind_pat(n["pat"], self.unit(n["init"]))
-                    self._mark_newline(n["pat"], n["init"])
+                    if n["pat"]["p"] == "bind":
+                        i_ = T.peel_ref(n["init"])
+                        if i_.get("k") == "call" and (T.cname(i_) or "").endswith("cmp::min") and len(i_["args"]) == 2:
+                            for a_, x_ in ((i_["args"][0], i_["args"][1]), (i_["args"][1], i_["args"][0])):
+                                if self._clamp_bb(a_, x_):
+                                    self.env[("clamp", n["pat"]["id"])] = T.local_of(x_)
+                        if self._is_scanner_result(n["init"]):
+                            self.env[("nlopt", n["pat"]["id"])] = True
+                        cf = self._char_finder_start(n["init"])
+                        if cf:
+                            self.env[("cfopt", n["pat"]["id"])] = cf
+                    else:
+                        self._mark_newline(n["pat"], n["init"])
             elif k == "assign":
                 lid = T.local_of(n["l"])
                 if lid is not None:
@@ -338,8 +376,9 @@ class Units:
                     cur = self.env.get(lid, BOT)
                     one = T.lit_value(n["r"]) == 1
                     if cur == BB and n["op"] in ("+", "+=", "-", "-="):
-                        # byte cursors stepped one byte at a time are raw
-                        self.set(lid, BR)
+                        # byte cursors stepped one byte at a time: boundary-ness is established by the scanners' byte tables
+                        # (C02.R4), not by provenance -> unknown, not *definitely* raw
+                        self.env[lid] = TOP
                     elif cur == CH and one:
                         pass
             elif k == "mcall" and n["name"] == "fold":
@@ -383,12 +422,48 @@ class Units:
         if self._is_scanner_result(e):
             for x in _pat_binds(pat):
                 self.env[("nl", x["id"])] = True
+        cf = self._char_finder_start(e)
+        if cf:
+            for x in _pat_binds(pat):
+                self.env[("cf", x["id"])] = cf
+
+    def _char_finder_start(self, e):
+        """render of L when e is find_next_char_pos(.., .., L) (or a local bound to it)."""
+        e = T.peel_ref(e)
+        if e.get("k") == "call" and T.short_path(T.callee(e) or "").endswith("find_next_char_pos") and len(e["args"]) == 3:
+            return T.render(e["args"][2])
+        if e.get("k") == "path":
+            lid = T.local_of(e)
+            return self.env.get(("cfopt", lid)) if lid is not None else None
+        return None
+
+    def _clamp_bb(self, a, x):
+        """Whitespace-run lemma: min(L + n, F) is a boundary when F = first non-blank at or after L, because [L, F)
+        holds only one-byte blanks.  Also min(S + n, F) when S is itself such a clamp with the same F."""
+        xid = T.local_of(x)
+        L = self.env.get(("cf", xid)) if xid is not None else None
+        if L is None:
+            return False
+        a = T.peel_ref(a)
+        if a.get("k") == "binary" and a["op"] == "+":
+            base = T.peel_ref(a["l"])
+            if T.render(base) == L:
+                return True
+            bid = T.local_of(base)
+            if bid is not None and self.env.get(("clamp", bid)) == xid:
+                return True
+        if T.render(a) == L:
+            return True
+        return False
 
     def _is_scanner_result(self, e):
         e = T.peel_ref(e)
         if e.get("k") == "call":
             c = T.short_path(T.callee(e) or "")
             return c.endswith("find_next_line_break_pos") or c.endswith("find_prev_line_break_pos")
+        if e.get("k") == "mcall" and e["name"] in ("unwrap_or", "unwrap", "expect", "unwrap_or_default", "unwrap_or_else", "ok_or"):
+            self._is_scanner_result(e["recv"])      # marks closure parameters on the way; the value itself is not a scan result any more
+            return False
         if e.get("k") == "mcall" and e["name"] in ("and_then", "map") and e["args"]:
             clo = T.peel(e["args"][0])
             if e["name"] == "and_then" and clo.get("k") == "closure":
@@ -422,3 +497,21 @@ def _pat_binds(p):
         if isinstance(f, dict) and f.get("pat"):
             out += _pat_binds(f["pat"])
     return out
+
+
+def _newline_test_pos(cond):
+    """(position render, polarity) if cond tests the byte at a position against '\\n'."""
+    c = T.peel(cond)
+    if c.get("k") == "unary" and c.get("op") == "!":
+        r = _newline_test_pos(c["e"])
+        return None if r is None else (r[0], not r[1])
+    if c.get("k") != "binary" or c["op"] not in ("==", "!="):
+        return None
+    for a, b_ in ((c["l"], c["r"]), (c["r"], c["l"])):
+        a, b_ = T.peel(a), T.peel(b_)
+        if a.get("k") == "mcall" and a["name"] == "get" and "[u8]" in (a["recv"].get("aty") or a["recv"].get("ty") or ""):
+            if b_.get("k") == "call" and T.render(b_["f"]).endswith("Some") and T.lit_value(T.peel_ref(b_["args"][0])) == 10:
+                return (T.render(T.peel_ref(a["args"][0])), c["op"] == "==")
+        if a.get("k") == "index" and "u8" in (a.get("ty") or "") and T.lit_value(T.peel_ref(b_)) == 10:
+            return (T.render(T.peel_ref(a["idx"])), c["op"] == "==")
+    return None
